@@ -18,6 +18,17 @@ pub struct Case {
     pub a: Spec,
     pub b: Spec,
     pub confs: Vec<(Kind, f64)>,
+    /// both samples are multiplied by 2^scale_log2 (exactly): extreme but finite magnitudes
+    #[serde(default)]
+    pub scale_log2: i32,
+}
+
+fn scaled(v: Vec<f64>, k: i32) -> Vec<f64> {
+    if k == 0 {
+        return v;
+    }
+    let f = 2f64.powi(k);
+    v.into_iter().map(|x| x * f).collect()
 }
 
 fn same(a: &Out<Obs>, b: &Out<Obs>) -> bool {
@@ -150,7 +161,10 @@ pub fn unpaired_ref(sa: &ExactStats, sb: &ExactStats, u: f64) -> UnpairedRef {
     let va = sa.var_f / na;
     let vb = sb.var_f / nb;
     let se = (va + vb).sqrt();
-    let nu = (va + vb) * (va + vb) / (va * va / (na + 1.0) + vb * vb / (nb + 1.0)) - 2.0;
+    // the documented formula (va+vb)^2 / (va^2/(na+1) + vb^2/(nb+1)) - 2, evaluated through the shares
+    // of the two samples so that the oracle itself cannot overflow on extreme magnitudes
+    let (pa, pb) = (va / (va + vb), vb / (va + vb));
+    let nu = 1.0 / (pa * pa / (na + 1.0) + pb * pb / (nb + 1.0)) - 2.0;
     let (ba, bb) = (budget(sa, u), budget(sb, u));
     let dva = ba.d_v / na + 4.0 * u * va;
     let dvb = bb.d_v / nb + 4.0 * u * vb;
@@ -189,16 +203,22 @@ fn mirror(o: &Obs) -> Obs {
 }
 
 fn judge_unpaired<F: Fl>(c: &Case, l: &mut Local) {
-    let a64 = sample(&c.a);
-    let b64 = sample(&c.b);
+    let a64 = scaled(sample(&c.a), c.scale_log2);
+    let b64 = scaled(sample(&c.b), c.scale_log2);
     let a: Vec<F> = conv(&a64);
     let b: Vec<F> = conv(&b64);
     let (na, nb) = (a.len(), b.len());
+    if c.scale_log2 != 0 {
+        l.count("unpaired: samples scaled by 2^±k (extreme finite magnitudes)");
+    }
     let case = || serde_json::to_value(c).unwrap();
     let (sa, sb) = (stats_f64(&a64), stats_f64(&b64));
     // domain: each sample well conditioned or exactly constant, at least one with spread
     let okc = |s: &ExactStats| in_domain(s, F::U) || (s.n >= 2 && s.var_f == 0.0);
-    let dom = okc(&sa) && okc(&sb) && (sa.var_f > 0.0 || sb.var_f > 0.0);
+    // sums of squares must stay inside the range of F (the crate documents sums of x and x^2)
+    let (fmax, fmin) = if F::IS32 { (f32::MAX as f64, f32::MIN_POSITIVE as f64) } else { (f64::MAX, f64::MIN_POSITIVE) };
+    let in_range = |s: &ExactStats| s.q_f <= fmax / 64.0 && (s.var_f == 0.0 || s.var_f >= fmin * 2f64.powi(if F::IS32 { 40 } else { 110 }));
+    let dom = okc(&sa) && okc(&sb) && (sa.var_f > 0.0 || sb.var_f > 0.0) && in_range(&sa) && in_range(&sb);
     // feeding styles
     let s_ci = Unpaired::<F>::from_iter(&a, &b).unwrap();
     let mut s_ext = Unpaired::<F>::default();
@@ -369,7 +389,18 @@ fn make_case(seed: u64, i: u64, levels: &[f64], quick: bool) -> Case {
         confs.push((kind, *r.pick(levels)));
         confs.push((kind, *r.pick(levels)));
     }
-    Case { a, b, confs }
+    // every 12th pair at an extreme (but finite, squares representable) magnitude
+    let scale_log2 = if j % 12 == 5 && !matches!(fam_a, Family::LogUniform | Family::SumAdversarial) && !matches!(fam_b, Family::LogUniform | Family::SumAdversarial) {
+        let k = if f32 { r.range(28, 36) } else { r.range(280, 420) } as i32;
+        if r.bool() {
+            k
+        } else {
+            -k
+        }
+    } else {
+        0
+    };
+    Case { a, b, confs, scale_log2 }
 }
 
 pub fn run(run: &Arc<Run>) {
@@ -441,6 +472,7 @@ pub fn run(run: &Arc<Run>) {
         "unpaired: very unequal sizes".into(),
         "unpaired:ordinary-magnitude".into(),
         "unpaired:large-magnitude".into(),
+        "unpaired: samples scaled by 2^±k (extreme finite magnitudes)".into(),
     ];
     for ty in ["f32", "f64"] {
         for k in KINDS {
